@@ -20,7 +20,10 @@ def slen(rows):
 
 
 # ------------------------------------------------------------------ generators
-def rand_input(rng, nscaf=4, maxrows=6, maxlen=3000, minlen=1, revp=0.25, prefix="s", hap_names=False, zero_strand=0.0):
+def rand_input(rng, nscaf=4, maxrows=6, maxlen=3000, minlen=1, revp=0.25, prefix="s", hap_names=False, zero_strand=0.0,
+               double_gaps=0.06, dup_names=0.0):
+    """dup_names: probability that a contig appears as two abutting same-named rows (an earlier cut; halves may have
+    different strands) — still WFInput (same-named intervals disjoint).  double_gaps: two consecutive gap rows."""
     scafs, cid, oid = [], 0, 0
     for j in range(rng.randint(1, nscaf)):
         rows = []
@@ -29,12 +32,25 @@ def rand_input(rng, nscaf=4, maxrows=6, maxlen=3000, minlen=1, revp=0.25, prefix
             if r:
                 if rng.random() < 0.93:
                     rows.append(conv.jgap(rng.choice([200, 200, 100, 17, 1])))
+                    if rng.random() < double_gaps:
+                        rows.append(conv.jgap(rng.choice([100, 5, 1000]), rng.choice(["contig", "centromere"])))
             cid += 1
             ln = rng.choice([rng.randint(minlen, 30), rng.randint(minlen, maxlen), rng.randint(minlen, maxlen)])
             st = rng.randint(1, 50)
             strand = -1 if rng.random() < revp else 1
             if rng.random() < zero_strand:
                 strand = 0
+            if ln >= 2 and rng.random() < dup_names:
+                k = rng.randint(1, ln - 1)
+                halves = [(st, st + k - 1), (st + k, st + ln - 1)]
+                s1 = strand; s2 = rng.choice([1, -1])
+                if rng.random() < 0.5:
+                    halves.reverse()
+                rows.append(conv.jfrag(oid, f"c{cid}", halves[0][0], halves[0][1], s1)); oid += 1
+                if rng.random() < 0.4:
+                    rows.append(conv.jgap(rng.choice([200, 17])))
+                rows.append(conv.jfrag(oid, f"c{cid}", halves[1][0], halves[1][1], s2)); oid += 1
+                continue
             rows.append(conv.jfrag(oid, f"c{cid}", st, st + ln - 1, strand))
             oid += 1
         name = f"{prefix}{j+1}"
@@ -44,13 +60,13 @@ def rand_input(rng, nscaf=4, maxrows=6, maxlen=3000, minlen=1, revp=0.25, prefix
     return scafs
 
 
-def pretext_script(rng, scafs, bpt_s, paint=0.7, cutp=0.5, drop_subtexel=0.5, minus=0.4, max_group=3):
+def pretext_script(rng, scafs, bpt_s, paint=0.7, cutp=0.5, drop_subtexel=0.5, minus=0.4, max_group=3, force_floor=False):
     """PretextView model. Returns (ptx scaffolds, script description)"""
     bpt = Fraction(bpt_s)
     pieces, script = [], []
     for s in scafs:
         L = slen(s["rows"])
-        T = math.floor(L / bpt) if rng.random() < 0.5 else math.ceil(L / bpt)
+        T = math.floor(L / bpt) if (force_floor or rng.random() < 0.5) else math.ceil(L / bpt)
         if T == 0:
             if rng.random() < drop_subtexel:
                 script.append({"scaffold": s["name"], "absent": True})
@@ -461,13 +477,17 @@ def oracle_gaps(inp, res, pretextview, join_gap=JOIN_GAP):
     """C07"""
     errs = []
     in_adj = adjacencies(inp)
+    # for every pair of neighbouring input contigs: the gap rows between them (possibly none, possibly several)
     in_gap = {}
     for s in inp:
-        rows = s["rows"]
-        for i in range(1, len(rows) - 1):
-            if rows[i]["t"] == "G" and rows[i - 1]["t"] == "F" and rows[i + 1]["t"] == "F":
-                in_gap[frozenset([facing(rows[i - 1], "L"), facing(rows[i + 1], "R")])] = (rows[i]["len"], rows[i]["type"])
-    in_neigh = junction_adj(inp)
+        prev, gaps = None, []
+        for r in s["rows"]:
+            if r["t"] == "G":
+                gaps.append((r["len"], r["type"]))
+            else:
+                if prev is not None:
+                    in_gap[frozenset([facing(prev, "L"), facing(r, "R")])] = list(gaps)
+                prev, gaps = r, []
     for s in out_scaffolds(res):
         rows = s["rows"]
         if not rows or rows[0]["t"] == "G" or rows[-1]["t"] == "G":
@@ -479,22 +499,22 @@ def oracle_gaps(inp, res, pretextview, join_gap=JOIN_GAP):
                 if k not in in_adj:
                     errs.append(f"gapless junction {x['name']}:{x['start']}-{x['end']} | {y['name']}:{y['start']}-{y['end']} in {s['name']} not adjacent in input")
         if pretextview:
-            for i in range(1, len(rows) - 1):
-                g = rows[i]
-                if g["t"] == "G" and rows[i - 1]["t"] == "F" and rows[i + 1]["t"] == "F":
-                    k = frozenset([facing(rows[i - 1], "L"), facing(rows[i + 1], "R")])
-                    gt = (g["len"], g["type"])
+            # every gap row between two fragments: one of the input gap rows between the same two neighbouring contig ends, or the join gap
+            prev, gaps = None, []
+            for r in rows:
+                if r["t"] == "G":
+                    gaps.append((r["len"], r["type"]))
+                    continue
+                if prev is not None and gaps:
+                    k = frozenset([facing(prev, "L"), facing(r, "R")])
                     jg = (join_gap["len"], join_gap["type"])
-                    if k in in_gap:
-                        if gt != in_gap[k] and gt != jg:
-                            errs.append(f"gap between input neighbours in {s['name']} is neither the input gap nor the join gap: {gt}")
-                    elif k in in_neigh:
-                        pass
-                    else:
-                        if gt != jg:
+                    for gt in gaps:
+                        if k in in_gap:
+                            if gt not in in_gap[k] and gt != jg:
+                                errs.append(f"gap between input neighbours in {s['name']} is neither their input gap nor the join gap: {gt}")
+                        elif gt != jg:
                             errs.append(f"junction between non-neighbours in {s['name']} does not use the join gap: {gt}")
-                elif g["t"] == "G" and (rows[i - 1]["t"] == "G" or rows[i + 1]["t"] == "G"):
-                    errs.append(f"two consecutive gap rows in {s['name']}")
+                prev, gaps = r, []
     return errs
 
 
@@ -803,8 +823,8 @@ def make_case(rng, kind, **kw):
                 last["end"] = last["start"] + need - 1 + rng.choice([0, 0, 1, 5])
         ptx = null_script(rng, inp, bpt, painted=(kind == "nullp"))
         return {"kind": kind, "input": inp, "ptx": ptx, "bpt": bpt}
-    if kind in ("nulltight", "nulltightp"):
-        # unedited map whose bait ends just before (or a few bases into) the last contig, which is >= 1 texel long
+    if kind in ("nulltight", "nulltightp", "tightscript"):
+        # map whose last piece ends just before (or a few bases into) the last contig, which is >= 1 texel long
         beta = Fraction(bpt)
         need = math.ceil(beta)
         inp, oid = [], 0
@@ -813,7 +833,7 @@ def make_case(rng, kind, **kw):
                 last_len = need + rng.choice([0, 0, 1, 2, need])
                 rows = []
                 for r in range(rng.randint(1, 3)):
-                    ln = rng.randint(1, max(2, 3 * need))
+                    ln = rng.randint(1, max(2, (12 if kind == "tightscript" else 3) * need))
                     st = rng.randint(1, 30)
                     rows.append(conv.jfrag(0, "x", st, st + ln - 1, -1 if rng.random() < revp else 1))
                     rows.append(conv.jgap(rng.choice([1, 2, 17, 100, 200])))
@@ -828,6 +848,9 @@ def make_case(rng, kind, **kw):
                 if r["t"] == "F":
                     r["oid"] = oid; r["name"] = f"c{oid+1}"; oid += 1
             inp.append(conv.jscaffold(f"s{j+1}", rows))
+        if kind == "tightscript":
+            ptx, _ = pretext_script(rng, inp, bpt, paint=kw.get("paint", 0.3), cutp=0.75, force_floor=True)
+            return {"kind": "script", "input": inp, "ptx": ptx, "bpt": bpt}
         ptx, n = [], 0
         for s_ in inp:
             L = slen(s_["rows"]); T = math.floor(L / beta)
@@ -838,8 +861,36 @@ def make_case(rng, kind, **kw):
         return {"kind": "nullp" if kind == "nulltightp" else "null", "input": inp, "ptx": ptx, "bpt": bpt}
     small = kw.get("small", rng.random() < 0.3)
     inp = rand_input(rng, revp=revp, hap_names=(kind == "hapnames"), maxlen=(40 if small else 3000),
-                     zero_strand=kw.get("zero_strand", 0.0), nscaf=kw.get("nscaf", 4))
+                     zero_strand=kw.get("zero_strand", 0.0), nscaf=kw.get("nscaf", 4),
+                     dup_names=(0.35 if kind == "dupnames" else 0.0), double_gaps=kw.get("double_gaps", 0.06))
+    if kind == "dupnames":
+        revp = max(revp, 0.3)
     ptx, script = pretext_script(rng, inp, bpt, paint=kw.get("paint", 0.7))
+    if kind == "dupnames":
+        kind = "script"
+    if kind == "slivers":
+        # arbitrary (not PretextView-consistent) additions: small tagged pieces that take a sub-texel sliver off a contig end
+        err = 1 + math.floor(Fraction(bpt))
+        ptx = decorate_tags(rng, ptx) if rng.random() < 0.5 else ptx
+        n = len(ptx)
+        for _ in range(rng.randint(1, 3)):
+            s_ = rng.choice(inp)
+            p, cands = 0, []
+            for r in s_["rows"]:
+                ln = flen(r)
+                if r["t"] == "F":
+                    cands.append((p + 1, p + ln))
+                p += ln
+            lo, hi = rng.choice(cands)
+            k = rng.randint(1, max(1, min(err - 1, hi - lo + 1)))
+            if rng.random() < 0.5:
+                a, b = hi - k + 1, hi + rng.choice([0, 1, err, 3 * err])
+            else:
+                a, b = max(1, lo - rng.choice([0, 1, err, 3 * err])), lo + k - 1
+            n += 1
+            ptx.append(conv.jscaffold(f"Scaffold_{n + 20}", [conv.jfrag(0, s_["name"], a, b, rng.choice([1, -1]),
+                                      rng.choice([["Haplotig"], ["Haplotig"], ["Contaminant"], [], ["Painted"]]))]))
+        return {"kind": "baits", "input": inp, "ptx": ptx, "bpt": bpt}
     if kind == "perturbed":
         ptx = perturb(rng, ptx, inp)
     elif kind == "baits":
@@ -941,3 +992,146 @@ def shrink_case(ctx, failure, still_fails):
     f2 = dict(failure)
     f2["input"] = best
     return f2
+
+
+# ------------------------------------------------------------------ the pretext-to-asm CLI end to end
+def agp_text(scs, header=()):
+    lines = [f"# {h}" for h in header]
+    for s in scs:
+        p = 0
+        for i, r in enumerate(s["rows"]):
+            ln = flen(r)
+            if r["t"] == "G":
+                lines.append("\t".join([s["name"], str(p + 1), str(p + ln), str(i + 1), "U", str(ln), r["type"], "yes", "proximity_ligation"]))
+            else:
+                lines.append("\t".join([s["name"], str(p + 1), str(p + ln), str(i + 1), "W", r["name"], str(r["start"]), str(r["end"]),
+                                        {1: "+", -1: "-", 0: "?"}[r["strand"]]] + list(r["tags"])))
+            p += ln
+    return "\n".join(lines) + "\n"
+
+
+def read_agp_file(path):
+    """independent reader → scaffolds JSON"""
+    scs, cur = [], None
+    for l in path.read_text().splitlines():
+        if not l.strip() or l.startswith("#"):
+            continue
+        f = l.rstrip().split("\t")
+        if cur is None or cur["name"] != f[0]:
+            cur = {"name": f[0], "rows": []}
+            scs.append(cur)
+        if f[4] in ("U", "N"):
+            cur["rows"].append({"t": "G", "len": int(f[5]), "type": f[6]})
+        else:
+            cur["rows"].append({"t": "F", "name": f[5], "start": int(f[6]), "end": int(f[7]), "strand": {"+": 1, "-": -1, "?": 0}[f[8]], "tags": f[9:]})
+    return scs
+
+
+def cli_run(case, scratch, tag):
+    """runs the real CLI in a fresh directory; returns dict(exit, files{name: path}, yaml, dir)"""
+    import yaml
+    from click.testing import CliRunner
+    from tola.assembly.scripts.pretext_to_asm import cli
+    d = scratch.path / f"cli_{tag}"
+    d.mkdir()
+    (d / "in.agp").write_text(agp_text(case["input"]))
+    (d / "ptx.agp").write_text(agp_text(case["ptx"], header=["DESCRIPTION: generated", f"HiC MAP RESOLUTION: {case['bpt']} bp/texel"]))
+    res = CliRunner().invoke(cli, ["-a", str(d / "in.agp"), "-p", str(d / "ptx.agp"), "-o", str(d / "xx.1.agp")])
+    files = {p.name: p for p in d.iterdir() if p.name not in ("in.agp", "ptx.agp")}
+    info = None
+    if (d / "xx.1.info.yaml").exists():
+        info = yaml.safe_load((d / "xx.1.info.yaml").read_text())
+    return {"exit": res.exit_code, "files": files, "yaml": info, "dir": d, "exception": repr(res.exception) if res.exception else None}
+
+
+def expected_file_key(key, keys, curated):
+    """C09's documented table: assembly key -> output file stem (without format suffix)"""
+    if "Primary" in keys:
+        if key == "Primary":
+            return "xx.1.primary.curated"
+        if curated:
+            return "xx.1.all_haplotigs.curated"
+        return f"xx.1.{key.lower()}s"
+    if None in keys:
+        if key is None:
+            return "xx.1.primary.curated"
+        if key == "Haplotig":
+            return "xx.1.additional_haplotigs.curated"
+        return f"xx.1.{key.lower()}s" + (".curated" if curated else "")
+    if curated:
+        return f"xx.{key.lower()}.1.primary.curated"
+    return f"xx.1.{key.lower()}s"
+
+
+def cli_oracles(case, run, real):
+    """what the written files must say, given the in-process result `real` of the same case"""
+    errs = []
+    if "err" in real:
+        if run["exit"] == 0:
+            errs.append("CLI succeeded although the in-process remap raised " + real["err"])
+        return errs
+    if run["exit"] != 0:
+        return [f"CLI exit {run['exit']} ({run['exception']}) although the in-process remap succeeded"]
+    asms = real["ok"]["assemblies"]
+    keys = [a["key"] for a in asms]
+    info = run["yaml"] or {}
+    # haplotig removals = haplotig scaffolds written
+    hfile = [n for n in run["files"] if "haplotigs" in n and n.endswith(".agp") and "all_haplotigs" not in n]
+    nh_written = sum(len(read_agp_file(run["files"][n])) for n in hfile)
+    nh_real = sum(len(a["scaffolds"]) for a in asms if a["key"] == "Haplotig")
+    if info.get("manual_haplotig_removals") != nh_written or nh_written != nh_real:
+        errs.append(f"manual_haplotig_removals={info.get('manual_haplotig_removals')} but {nh_written} haplotig scaffolds were written ({nh_real} in memory)")
+    st = real["ok"]["stats"]
+    if "manual_breaks" in info and (info["manual_breaks"], info["manual_joins"]) != (st["breaks"], st["joins"]):
+        errs.append(f"yaml breaks/joins {info.get('manual_breaks')}/{info.get('manual_joins')} differ from the statistics {st['breaks']}/{st['joins']}")
+    ya = info.get("assemblies", {})
+    for k, b, j in st["per_assembly"]:
+        if ya.get(k) != {"manual_breaks": b, "manual_joins": j}:
+            errs.append(f"yaml per-assembly statistics for {k}: {ya.get(k)} != {(b, j)}")
+    # every assembly written under the documented name with exactly its scaffolds (all_haplotigs = merge of the other curated ones)
+    merged = {}
+    for a in asms:
+        stem = expected_file_key(a["key"], keys, a["curated"])
+        merged.setdefault(stem, []).extend(a["scaffolds"])
+    for stem, scs in merged.items():
+        fn = stem + ".agp"
+        if fn not in run["files"]:
+            errs.append(f"expected output file {fn} missing; written: {sorted(run['files'])}")
+            continue
+        got = read_agp_file(run["files"][fn])
+        want = [{"name": s["name"], "rows": [conv.strip_oids(r) for r in s["rows"]]} for s in scs]
+        if got != want:
+            errs.append(f"{fn} does not contain exactly the scaffolds of its assembly")
+    extra = [n for n in run["files"] if n.endswith(".agp") and n[:-4] not in merged]
+    if extra:
+        errs.append(f"unexpected assembly files {extra}")
+    # chromosome list csv per curated assembly
+    for a in asms:
+        stem = expected_file_key(a["key"], keys, a["curated"])
+        if not a["curated"] or "all_haplotigs" in stem:
+            continue
+        fn = stem[: -len(".curated")] + ".chromosome.list.csv" if stem.endswith(".curated") else stem + ".chromosome.list.csv"
+        want = [f"{l[0]},{l[1]},{'yes' if l[2] else 'no'}" for l in a["chr_csv"]]
+        if want:
+            if fn not in run["files"]:
+                errs.append(f"chromosome list {fn} missing; written: {sorted(run['files'])}")
+            elif run["files"][fn].read_text().splitlines() != want:
+                errs.append(f"chromosome list {fn} differs from the assembly's chromosomes")
+    return errs
+
+
+def run_cli_cases(ctx, stream, cases, classify=None, only=None):
+    import fasta_lib as F
+    out = ctx.out
+    with F.Scratch() as sc:
+        for i, c in enumerate(cases):
+            real = real_remap(c["input"], c["ptx"], c["bpt"])
+            run = cli_run(c, sc, i)
+            inp = {k: c[k] for k in ("input", "ptx", "bpt", "kind") if k in c}
+            out.case(stream, inp, ("cli", c["kind"], run["exit"], len(run["files"])))
+            errs = cli_oracles(c, run, real)
+            if only:
+                errs = [e for e in errs if any(w in e for w in only)]
+            for msg in errs:
+                out.oracle_fail(stream, inp, msg, finding=(classify(c, real, msg) if classify else None))
+                break
